@@ -66,6 +66,11 @@ func startSink() {
 		if strings.HasPrefix(r.URL.Path, "/n/reenter/") && reenter != nil {
 			reenter()
 		}
+		// a consumer that has the notification and goes away without answering it (restart, connection reset): the stream
+		// is aborted, the CHF's client sees a transport error, not an HTTP answer
+		if strings.HasPrefix(r.URL.Path, "/n/drop/") {
+			panic(http.ErrAbortHandler)
+		}
 		w.WriteHeader(http.StatusNoContent)
 	})
 	go func() { _ = http.Serve(l, h2c.NewHandler(h, &http2.Server{})) }()
@@ -138,8 +143,12 @@ func parseReq(p *tk) *models.ChfConvergedChargingChargingDataRequest {
 	}
 	r.ChargingId = int32(p.i())
 	r.InvocationSequenceNumber = int32(p.i())
-	if p.i() == 1 {
+	switch p.i() {
+	case 1:
 		r.NotifyUri = sinkURL + "/n/" + r.SubscriberIdentifier
+	case 2:
+		// another address (generated for updates and releases only: the address registered by the create stays the subscriber's)
+		r.NotifyUri = sinkURL + "/m/" + r.SubscriberIdentifier
 	}
 	applyCreateFlags(r, p.i()) // bit 0: oneTimeEvent; bits 1, 2: contents that OpenCDR refuses (chf_events.go)
 	now := time.Now()
@@ -761,7 +770,7 @@ func genChf(o genOpts, w *bufio.Writer) {
 					s.live = true
 				}
 			}
-			fmt.Fprintf(w, "chf %s %s %s\n", op, hexOf([]byte(sid)), fmtReq(supiReq, s.nf, 100, i+1, 1, 0, trigs, usages))
+			fmt.Fprintf(w, "chf %s %s %s\n", op, hexOf([]byte(sid)), fmtReq(supiReq, s.nf, 100, i+1, r.pick(1, 1, 0, 2, 2), 0, trigs, usages))
 			done++
 			if o.mode == "api" && r.chance(10) {
 				fmt.Fprintf(w, "chf recharge %s\n", hexOf([]byte(r.pickStr(s.supi+"_1", s.supi+"_2", s.supi, s.supi+"_x", "imsi-404_1", s.supi+"_1_2", "_", s.supi+"_-3", s.supi+"_99999999999",
